@@ -253,7 +253,9 @@ class Unit:
                 _validate_dimensions(dimensions)
         else:
             # lookup the unit symbols
-            unit_data = _get_unit_data_from_expr(unit_expr, registry.lut)
+            unit_data = _get_unit_data_from_expr(
+                unit_expr, registry.lut, registry._derived_symbols
+            )
             base_value = unit_data[0]
             dimensions = unit_data[1]
             if len(unit_data) > 2:
@@ -953,7 +955,7 @@ def _get_conversion_factor(old_units, new_units, dtype):
 #
 
 
-def _get_unit_data_from_expr(unit_expr, unit_symbol_lut):
+def _get_unit_data_from_expr(unit_expr, unit_symbol_lut, derived_symbols=None):
     """
     Grabs the total base_value and dimensions from a valid unit expression.
 
@@ -972,10 +974,12 @@ def _get_unit_data_from_expr(unit_expr, unit_symbol_lut):
         return (float(unit_expr), sympy_one)
 
     if isinstance(unit_expr, Symbol):
-        return _lookup_unit_symbol(unit_expr.name, unit_symbol_lut)
+        return _lookup_unit_symbol(unit_expr.name, unit_symbol_lut, derived_symbols)
 
     if isinstance(unit_expr, Pow):
-        unit_data = _get_unit_data_from_expr(unit_expr.args[0], unit_symbol_lut)
+        unit_data = _get_unit_data_from_expr(
+            unit_expr.args[0], unit_symbol_lut, derived_symbols
+        )
         power = unit_expr.args[1]
         if isinstance(power, Symbol):
             raise UnitParseError(f"Invalid unit expression '{unit_expr}'.")
@@ -987,7 +991,7 @@ def _get_unit_data_from_expr(unit_expr, unit_symbol_lut):
         base_value = 1.0
         dimensions = 1
         for expr in unit_expr.args:
-            unit_data = _get_unit_data_from_expr(expr, unit_symbol_lut)
+            unit_data = _get_unit_data_from_expr(expr, unit_symbol_lut, derived_symbols)
             base_value *= unit_data[0]
             dimensions *= unit_data[1]
 
